@@ -272,7 +272,12 @@ func (g *G) Merge(d int) X {
 				nc = 0
 			}
 			if nc > 0 {
-				cts, ctoks := g.strList(g.someCols(nc))
+				cols := g.someCols(nc)
+				for _, cn := range cols { // like an INSERT column list: column references
+					g.P.Columns[cn] = true
+					g.P.QColumns[cn] = true
+				}
+				cts, ctoks := g.strList(cols)
 				act.Set("Columns", cts)
 				toks = cat(toks, ctoks)
 			}
